@@ -448,7 +448,7 @@ func coordScenario(r *rand.Rand, thorough bool) *coCase {
 		n = 2 + r.Intn(4)
 	}
 	c.Opts = coOpts{MaxHead: H, MaxProc: L, MaxShard: int32(n + r.Intn(3)), MinShard: int32(r.Intn(2)), MaxIdle: pick64(r, 3600, 3600, 60, 0)}
-	kind := r.Intn(5)
+	kind := r.Intn(6)
 	hash := uint64(100)
 	mkT := func(series, total int64, times uint64) coStat {
 		hash++
@@ -534,6 +534,39 @@ func coordScenario(r *rand.Rand, thorough bool) *coCase {
 				sh.PushOK = false
 			}
 			c.Shards = append(c.Shards, sh)
+		}
+	case 5: // scale-down whose pre-check and whose moves depend on the ORDER the tail's targets are visited in (both walk a
+		// map): spaces L/2 and 3L/10 below a tail holding targets of L/4 and 9L/20 - packed largest first everything fits,
+		// smallest first the large one is left over. The pre-check may pass and the moves still stop half way.
+		c.Opts.MaxIdle = pick64(r, 3600, 60)
+		c.Opts.MaxHead = 0
+		n = 3
+		for len(c.Shards) < 3 {
+			c.Shards = append(c.Shards, coShard{Ready: true, PushOK: true, PostOK: true, Status: &[]coStat{}, RT1: &coRuntime{HashOK: true}})
+		}
+		c.Shards = c.Shards[:3]
+		c.Opts.MaxShard = int32(3 + r.Intn(2))
+		*c.Shards[0].Status = append(*c.Shards[0].Status, mkT(1, L/2, old()))
+		*c.Shards[1].Status = append(*c.Shards[1].Status, mkT(1, L*7/10, old()))
+		*c.Shards[2].Status = append(*c.Shards[2].Status, mkT(1, L/4, old()), mkT(1, L*9/20, old()))
+		if r.Intn(3) == 0 { // a third, tiny one
+			*c.Shards[2].Status = append(*c.Shards[2].Status, mkT(1, 1, old()))
+		}
+		for k := 0; k < 3; k++ {
+			setLoad(k)
+		}
+		if r.Intn(4) == 0 { // ... or a head limit that binds the same way
+			c.Opts.MaxHead = L
+			for k := 0; k < 3; k++ {
+				st := *c.Shards[k].Status
+				for j := range st {
+					st[j].Series = st[j].Total
+				}
+				for j := range c.Explore {
+					c.Explore[j].Series = c.Explore[j].Total
+				}
+				setLoad(k)
+			}
 		}
 	case 4: // new targets to assign next to shards that are not in sync but hold copies
 		for k := 0; k < n; k++ {
